@@ -121,6 +121,9 @@ def gen_ctor_cases(ctx):
         m = [rng.randint(0, 8) for _ in range(rng.randint(0, 7))]
         add("Cal::new", "calnew", 17, [len(m)] + m)
     # csolve: valid, lengths off, repeated sites, least squares, derivative orders, degenerate orders
+    fs0 = lambda l: [len(l)] + [J.f2b(float(x)) for x in l]
+    # smallest aborting call found: order 1, knots 0..4, a repeated data site (singular collocation matrix)
+    add("PPSpline::csolve", "csolve", 18, [1] + fs0([0, 1, 2, 3, 4]) + fs0([0.5, 0.5, 2.5, 3.5]) + fs0([1, 2, 3, 4]) + [0, 0, 0])
     for _ in range(300 if th else 50):
         k = rng.choice([1, 2, 3, 4, 4, 4])
         nint = rng.randint(1, 4)
@@ -164,6 +167,31 @@ def top_type(doc):
     return "?"
 
 
+O = J.Obj
+
+
+def _arr1(l):
+    return O([("v", 1), ("dim", [len(l)]), ("data", list(l))])
+
+
+# minimal documents of the classes found at design time (DESIGN §6 F4, F5), replayed first on every run
+CORPUS = [
+    O([("NamedCal", O([("name", "bad")]))]),
+    O([("FXRates", O([("fx_rates", []), ("currencies", [])]))]),
+    O([("FXRates", O([("fx_rates", []), ("currencies", [O([("name", "usd")])])]))]),
+    O([("Dual", O([("real", 2.5), ("vars", ["x", "y"]), ("dual", _arr1([1.0]))]))]),
+    O([("Dual2", O([("real", 2.5), ("vars", ["x"]), ("dual", _arr1([1.0])),
+                    ("dual2", O([("v", 1), ("dim", [0, 5]), ("data", [])]))]))]),
+    O([("PPSplineF64", O([("inner", O([("k", 2), ("t", [0.0, 1.0]), ("c", None), ("n", 7)]))]))]),
+    O([("Curve", O([("inner", O([("nodes", O([("F64", O([(86400, 1.0), (0, 0.99)]))])), ("interpolator", O([("Linear", O([]))])),
+                                 ("id", "v"), ("convention", "Act360"), ("modifier", "ModF"), ("index_base", None),
+                                 ("calendar", O([("NamedCal", O([("name", "all")]))]))]))]))]),
+    O([("Curve", O([("inner", O([("nodes", O([("F64", O([(0, 1.0)]))])), ("interpolator", O([("Linear", O([]))])),
+                                 ("id", "v"), ("convention", "Act360"), ("modifier", "ModF"), ("index_base", None),
+                                 ("calendar", O([("NamedCal", O([("name", "bad")]))]))]))]))]),
+]
+
+
 def gen_load_cases(ctx, nobj):
     rng = ctx.rng
     objs = []
@@ -174,7 +202,7 @@ def gen_load_cases(ctx, nobj):
     for o, a in zip(objs, impl):
         if a and a[0] == 0:
             docs.append(J.parse_text(J.text_of_out(a, 1)[0]))
-    cases = []
+    cases = [(d, "corpus") for d in CORPUS]
     per = 8
     for d in docs:
         for _ in range(per):
@@ -218,6 +246,44 @@ def raw_cases(ctx, docs_text):
     return out
 
 
+def _illshaped_number(n):
+    try:
+        (tag, body), = n.kv
+        if tag == "F64":
+            return False
+        if isinstance(body, list):
+            return True                      # positional form: not analysed here, treated as possibly ill-shaped
+        nv = len(dict.fromkeys(body.get("vars")))
+        du = body.get("dual")
+        nd = len(du.get("data")) if isinstance(du, J.Obj) else None
+        if nd is None or nd != nv:
+            return True
+        if tag == "Dual2":
+            d2 = body.get("dual2")
+            if not isinstance(d2, J.Obj) or list(d2.get("dim")) != [nv, nv]:
+                return True
+        return False
+    except Exception:
+        return True
+
+
+def fx_has_illshaped_quote(doc):
+    """an FXRates document one of whose quotes holds a Dual/Dual2 with inconsistent array lengths (F5 inside F4):
+    the reconstruction then does dual arithmetic on arrays of different lengths — outside the modelled domain"""
+    try:
+        if top_type(doc) != "FXRates":
+            return False
+        body = doc.kv[0][1]
+        rates = body.get("fx_rates") if isinstance(body, J.Obj) else body[0]
+        for q in rates:
+            n = q.get("rate") if isinstance(q, J.Obj) else q[1]
+            if _illshaped_number(n):
+                return True
+        return False
+    except Exception:
+        return False
+
+
 def classify_panic(doc):
     ty = top_type(doc)
     if ty == "FXRates":
@@ -255,7 +321,14 @@ def run_load(ctx, cases):
             ctx.nontriv(("load", tuple(e)))
         base = {"part": "load", "entry": "from_json", "type": ty, "mutation": lab, "document": J.show(doc, 2000),
                 "tree": e, "implementation": a[:40], "model": b[:40], "harness_cmd": harness_cmd("json", ln)[:6000]}
-        if not agree:
+        if not agree and fx_has_illshaped_quote(doc):
+            ctx.count("load: FXRates document with an ill-shaped quote (outside the modelled domain)")
+            if a[0] != 2:
+                continue
+            key = ("from_json", "FXRates", "panic-on-inconsistent-fx")
+            what = ("from_json ABORTS (ndarray shape mismatch inside the FXRates reconstruction) on a document whose quote holds a "
+                    "Dual with inconsistent array lengths: %s" % J.show(doc, 400))
+        elif not agree:
             key = ("from_json", ty, "model-mismatch")
             what = ("from_json: the implementation and the model disagree on the document %s (%s): implementation %s, model %s"
                     % (J.show(doc, 300), lab, fmt_load(a), fmt_load(b)))
@@ -307,7 +380,8 @@ def run_ctors(ctx, cases):
             what = "%s: implementation and model disagree: implementation %s, model %s; input `%s`" % (label, a[:12], b[:12], line[:300])
         elif a[0] == 2 and not ctor_out_of_range(label, mc):
             key = (ent, "abort")
-            what = "%s ABORTS (Rust panic) instead of returning a value or an error; input `%s`" % (label, line[:300])
+            what = "%s ABORTS (Rust panic) instead of returning a value or an error: %s" % (label, pretty_ctor(label, mc, line))
+            rp["call"] = pretty_ctor(label, mc, line)
         else:
             continue
         rp["class"] = key[1]
@@ -317,6 +391,27 @@ def run_ctors(ctx, cases):
     for key in sorted(groups):
         _, what, rp = groups[key]
         ctx.violation(what, rp)
+
+
+def pretty_ctor(label, mc, line):
+    """human-readable form of a constructor case"""
+    try:
+        if label == "PPSpline::csolve":
+            a = mc[1:]
+            k, nt = a[0], a[1]
+            t = [b2f(x) for x in a[2:2 + nt]]
+            i = 2 + nt
+            ntau = a[i]
+            tau = [b2f(x) for x in a[i + 1:i + 1 + ntau]]
+            i += 1 + ntau
+            ny = a[i]
+            y = [b2f(x) for x in a[i + 1:i + 1 + ny]]
+            i += 1 + ny
+            return "PPSpline::<f64>::new(k=%d, t=%s, None).csolve(tau=%s, y=%s, left_n=%d, right_n=%d, allow_lsq=%s)" % (
+                k, t, tau, y, a[i], a[i + 1], bool(a[i + 2]))
+    except Exception:
+        pass
+    return "`%s`" % line[:300]
 
 
 def ctor_out_of_range(label, mc):
@@ -353,7 +448,7 @@ def run(ctx):
         "out of scope: stack exhaustion, allocation failure, panics inside pyo3, NaN inputs to csolve, JSON integers beyond 2^64, array dimensions beyond isize::MAX",
     ]
     translate.generate(REPO, os.path.join(COQ, "theories", "Gen"))
-    if not proof_stage(ctx, ["theories/Run/RunJson.vo", "theories/Run/RunCal.vo"]):
+    if not proof_stage(ctx, ["theories/Run/RunJson.vo", "theories/Run/RunCal.vo", "theories/Proofs/CsolveWitness.vo"]):
         ctx.violation("a C20 proof obligation or the model no longer compiles",
                       {"no_failing_input": True, "theorem": "Props/C20.v / Run/RunJson.v", "log_tail": getattr(ctx, "build_log", "")[-3000:]})
         return ctx.finish(CMD)
@@ -365,7 +460,7 @@ def run(ctx):
     # constructors
     run_ctors(ctx, gen_ctor_cases(ctx))
     # from_json
-    lcases = gen_load_cases(ctx, 600 if th else 60)
+    lcases = gen_load_cases(ctx, 1500 if th else 150)
     run_load(ctx, lcases)
     # malformed text
     texts = [J.show(d, 10 ** 6) for d, lab in lcases if lab == "valid"][:200 if th else 30]
